@@ -108,7 +108,14 @@ pub struct CoState {
     pub stop: Option<Stop>,
     pub steps: u64,
     pub next_cell: usize,
+    /// current rendered value of every shared cell (kept for controllers)
+    pub cell_vals: Vec<String>,
+    /// reference runs driven by a follower: sleeping never blocks (time belongs to the compiled run)
+    pub no_block_sleep: bool,
     threads: Vec<std::thread::JoinHandle<()>>,
+    ctrl: Option<Box<dyn Controller + Send>>,
+    pub schedule: Vec<Gid>,
+    pub max_steps: u64,
 }
 
 pub struct Co {
@@ -141,7 +148,12 @@ impl Co {
                 stop: None,
                 steps: 0,
                 next_cell: 0,
+                cell_vals: Vec::new(),
+                no_block_sleep: false,
                 threads: Vec::new(),
+                ctrl: None,
+                schedule: Vec::new(),
+                max_steps: u64::MAX,
             }),
             cv: Condvar::new(),
         })
@@ -165,7 +177,7 @@ impl Co {
         if s.current == Some(gid) {
             s.current = None;
         }
-        self.cv.notify_all();
+        self.schedule_next(&mut s);
         loop {
             if s.stop.is_some() {
                 return Err(Unwind::Stopped);
@@ -184,16 +196,22 @@ impl Co {
         if let Ev::Print(t) = &ev {
             s.stdout.push_str(t);
         }
+        if let Ev::Store { cell, val } = &ev {
+            if *cell < s.cell_vals.len() {
+                s.cell_vals[*cell] = val.clone();
+            }
+        }
         if !matches!(ev, Ev::Load { .. }) {
             s.gs[gid].spins = 0;
         }
         s.events.push(Event { seq, gid, ev });
     }
 
-    pub fn new_cell(&self) -> usize {
+    pub fn new_cell(&self, initial: String) -> usize {
         let mut s = self.lock();
         let c = s.next_cell;
         s.next_cell += 1;
+        s.cell_vals.push(initial);
         c
     }
 
@@ -202,13 +220,16 @@ impl Co {
         self.yield_point(gid, Pending::Sleep)?;
         self.emit(gid, Ev::Sleep(ns));
         let mut s = self.lock();
+        if s.no_block_sleep {
+            return Ok(());
+        }
         let until = s.clock.saturating_add(ns);
         s.gs[gid].state = GState::Sleeping(until);
         s.gs[gid].pending = Pending::Backedge;
         if s.current == Some(gid) {
             s.current = None;
         }
-        self.cv.notify_all();
+        self.schedule_next(&mut s);
         loop {
             if s.stop.is_some() {
                 return Err(Unwind::Stopped);
@@ -281,6 +302,7 @@ impl Co {
                 if s.current == Some(gid) {
                     s.current = None;
                 }
+                co.schedule_next(&mut s);
                 co.cv.notify_all();
             })
             .expect("spawn goroutine thread");
@@ -289,43 +311,15 @@ impl Co {
     }
 }
 
-/// A controller decides, whenever nobody is running, who runs next.
-pub trait Controller {
-    /// `runnable` lists parked goroutines (sleepers whose time has come included).
-    /// Return Ok(gid) to release one, Err(reason) to halt the program.
-    fn pick(&mut self, st: &CoState, runnable: &[Gid]) -> Result<Gid, String>;
-}
 
-pub struct RunOutput {
-    pub events: Vec<Event>,
-    pub stdout: String,
-    pub stop: Stop,
-    pub schedule: Vec<Gid>,
-    pub steps: u64,
-    pub sim_time_ns: u64,
-    pub goroutines: usize,
-}
-
-/// Drive the coroutine set to completion under `ctrl`.
-pub fn drive(co: &Arc<Co>, ctrl: &mut dyn Controller, max_steps: u64) -> RunOutput {
-    let mut schedule = Vec::new();
-    loop {
-        let mut s = co.lock();
-        // wait until nobody is running
-        loop {
-            if s.stop.is_some() {
-                break;
-            }
-            let running = s.current.is_some() || s.gs.iter().any(|g| g.state == GState::Running);
-            if !running {
-                break;
-            }
-            s = co.cv.wait(s).unwrap_or_else(|e| e.into_inner());
+impl Co {
+    /// Decide who runs next. Called with the lock held by whoever just stopped running (a
+    /// goroutine at a yield point or at its end, or the driver at the very beginning), so a
+    /// goroutine that is picked again continues without any thread hand-off.
+    fn schedule_next(&self, s: &mut CoState) {
+        if s.stop.is_some() || s.current.is_some() || s.gs.iter().any(|g| g.state == GState::Running) {
+            return;
         }
-        if s.stop.is_some() {
-            break;
-        }
-        // wake sleepers whose time has come; if nothing is runnable jump the clock
         let mut runnable: Vec<Gid> = Vec::new();
         loop {
             runnable.clear();
@@ -354,32 +348,65 @@ pub fn drive(co: &Arc<Co>, ctrl: &mut dyn Controller, max_steps: u64) -> RunOutp
             }
         }
         if runnable.is_empty() {
-            // everybody is done but main did not return?! (cannot happen: main's exit stops)
             s.stop = Some(Stop::Halted("no runnable goroutine".into()));
-            co.cv.notify_all();
-            break;
+            self.cv.notify_all();
+            return;
         }
-        if s.steps >= max_steps {
+        if s.steps >= s.max_steps {
             s.stop = Some(Stop::Halted("step budget exhausted".into()));
-            co.cv.notify_all();
-            break;
+            self.cv.notify_all();
+            return;
         }
-        match ctrl.pick(&s, &runnable) {
+        let Some(mut ctrl) = s.ctrl.take() else {
+            return;
+        };
+        let pick = ctrl.pick(s, &runnable);
+        s.ctrl = Some(ctrl);
+        match pick {
             Ok(g) => {
                 s.steps += 1;
                 // every scheduling step costs a little simulated time, so that a goroutine
                 // spinning on a Ref cell cannot freeze the clock of a sleeping one
                 s.clock += STEP_NS;
-                schedule.push(g);
+                s.schedule.push(g);
                 s.gs[g].state = GState::Running;
                 s.current = Some(g);
-                co.cv.notify_all();
+                self.cv.notify_all();
             }
             Err(reason) => {
                 s.stop = Some(Stop::Halted(reason));
-                co.cv.notify_all();
-                break;
+                self.cv.notify_all();
             }
+        }
+    }
+}
+
+/// A controller decides, whenever nobody is running, who runs next.
+pub trait Controller {
+    /// `runnable` lists parked goroutines (sleepers whose time has come included).
+    /// Return Ok(gid) to release one, Err(reason) to halt the program.
+    fn pick(&mut self, st: &CoState, runnable: &[Gid]) -> Result<Gid, String>;
+}
+
+pub struct RunOutput {
+    pub events: Vec<Event>,
+    pub stdout: String,
+    pub stop: Stop,
+    pub schedule: Vec<Gid>,
+    pub steps: u64,
+    pub sim_time_ns: u64,
+    pub goroutines: usize,
+}
+
+/// Drive the coroutine set to completion under `ctrl`; the controller is handed back.
+pub fn drive<C: Controller + Send + 'static>(co: &Arc<Co>, ctrl: C, max_steps: u64) -> (RunOutput, Box<C>) {
+    {
+        let mut s = co.lock();
+        s.ctrl = Some(Box::new(ctrl));
+        s.max_steps = max_steps;
+        co.schedule_next(&mut s);
+        while s.stop.is_none() {
+            s = co.cv.wait(s).unwrap_or_else(|e| e.into_inner());
         }
     }
     // everybody unwinds
@@ -401,16 +428,22 @@ pub fn drive(co: &Arc<Co>, ctrl: &mut dyn Controller, max_steps: u64) -> RunOutp
             let _ = t.join();
         }
     }
-    let s = co.lock();
-    RunOutput {
-        events: s.events.clone(),
-        stdout: s.stdout.clone(),
-        stop: s.stop.clone().unwrap_or(Stop::Halted("?".into())),
-        schedule,
-        steps: s.steps,
-        sim_time_ns: s.clock,
-        goroutines: s.gs.len(),
-    }
+    let mut s = co.lock();
+    let ctrl = s.ctrl.take().expect("controller");
+    // SAFETY: the box was created from a C in this function
+    let ctrl: Box<C> = unsafe { Box::from_raw(Box::into_raw(ctrl) as *mut C) };
+    (
+        RunOutput {
+            events: s.events.clone(),
+            stdout: s.stdout.clone(),
+            stop: s.stop.clone().unwrap_or(Stop::Halted("?".into())),
+            schedule: s.schedule.clone(),
+            steps: s.steps,
+            sim_time_ns: s.clock,
+            goroutines: s.gs.len(),
+        },
+        ctrl,
+    )
 }
 
 // ---------------------------------------------------------------------------------------------
